@@ -367,7 +367,10 @@ func vtC11MemExec(in []int64) []int64 {
 // vtC11GenPods draws a pod set; usage and request figures are pairwise distinct so that the
 // published order has no full-key ties (sort.Slice orders those arbitrarily).
 func vtC11GenPods(rnd *rand.Rand, unit int64, allNil bool) []int64 {
-	n := rnd.Intn(8)
+	n := 1 + rnd.Intn(8)
+	if rnd.Intn(12) == 0 {
+		n = 0
+	}
 	palette := []int64{5000 + int64(rnd.Intn(1000)), 7000 + int64(rnd.Intn(1000)), 9000 + int64(rnd.Intn(1000)),
 		3000 + int64(rnd.Intn(1000)), int64(1 + rnd.Intn(200)), 6500, 5999, 7999}
 	pick := rnd.Perm(len(palette))[:3]
@@ -403,7 +406,7 @@ func vtC11GenPods(rnd *rand.Rand, unit int64, allNil bool) []int64 {
 
 func vtC11GenOracle(rnd *rand.Rand) []int64 {
 	var already []int64
-	for p := 1; p <= 7; p++ {
+	for p := 1; p <= 8; p++ {
 		if rnd.Intn(10) == 0 {
 			already = append(already, int64(p))
 		}
